@@ -18,7 +18,11 @@ import time
 
 HERE = os.path.dirname(os.path.abspath(__file__))
 sys.path.insert(0, HERE)
+# development aid: IOOS_QC_REPO=<checkout> analyses another checkout (symbolic copy AND real package) instead of /repo
+if os.environ.get("IOOS_QC_REPO"):
+    sys.path.insert(0, os.environ["IOOS_QC_REPO"])
 os.environ.setdefault("PYTHONHASHSEED", "0")
+EVDIR = os.environ.get("VERIF_EVIDENCE_DIR") or os.path.join(HERE, "evidence")
 
 
 def _run_one(args):
@@ -31,7 +35,7 @@ def _run_one(args):
     mod = importlib.import_module(f"props.{prop.lower()}")
     job = mod.jobs(tier)[idx]
     try:
-        return harness.run_job(job, seed=seed, replay_dir=os.path.join(HERE, "evidence", "replays"))
+        return harness.run_job(job, seed=seed, replay_dir=os.path.join(EVDIR, "replays"))
     except BaseException as e:  # never let a worker die silently
         import traceback
         return {"job": job.name, "prop": prop, "params": {}, "paths": 0, "decisions": 0, "queries": 0,
@@ -60,7 +64,7 @@ def main(argv=None):
     mod = importlib.import_module(f"props.{prop.lower()}")
     joblist = mod.jobs(tier)
     import glob
-    for f in glob.glob(os.path.join(HERE, "evidence", "replays", f"{prop}_*.json")):
+    for f in glob.glob(os.path.join(EVDIR, "replays", f"{prop}_*.json")):
         os.remove(f)
     idxs = [i for i, j in enumerate(joblist) if a.only is None or a.only in j.name]
     from symex import findings, evidence
